@@ -12,8 +12,12 @@ CONSTANTS MaxRows, MaxNest
 N(ps) == ArrV([i \in 1..Len(ps) |-> Row([p |-> NumV(ps[i])])])
 Nests == IF MaxNest >= 2 THEN {<<>>, <<1>>, <<2, 5>>} ELSE {<<>>, <<2>>}
 TRows == {Row([a |-> NumV(a), g |-> NumV(g), n |-> N(ps)]) : a \in {1, 3}, g \in {0, 1}, ps \in Nests}
-URows == {Row([c |-> NumV(i)]) : i \in {1, 3}}
-Docs == {ObjV([x \in {"t", "u"} |-> IF x = "t" THEN ArrV(t) ELSE ArrV(u)]) : t \in SeqsUpTo(TRows, MaxRows), u \in SeqsFromTo(URows, 0, 2)}
+URows == {Row([c |-> NumV(i)]) : i \in {1, 3}} \cup {Row([c |-> NumV(2), a |-> Null])}   \* a row sharing the key a, holding NULL
+U1 == Row([c |-> NumV(1)])
+U3 == Row([c |-> NumV(3)])
+UN == Row([c |-> NumV(2), a |-> Null])
+UTables == {<<>>, <<U1>>, <<U3, U1>>, <<UN>>, <<U1, UN, U3>>}
+Docs == {ObjV([x \in {"t", "u"} |-> IF x = "t" THEN ArrV(t) ELSE ArrV(u)]) : t \in SeqsUpTo(TRows, MaxRows), u \in UTables}
 
 A == Col("a")
 G == Col("g")
@@ -70,6 +74,12 @@ Subs == { SelQ(<<I(A), Item(Sub(NQ(<<I(P)>>, None)), "s")>>, T, None),
           SelQ(<<I(A), Item(Sub(SelQ(<<I(Col("c"))>>, Table(<<"<-", "u">>, ""), CmpE(">", Col("c"), LN(1)))), "s")>>, T, None),
           \* correlated through <- : u rows whose c exceeds the outer row's a
           SelQ(<<I(A), Item(Sub(SelQ(<<I(Col("c"))>>, Table(<<"<-", "u">>, ""), CmpE(">", Col("c"), ColP(<<"<-", "a">>)))), "s")>>, T, None),
+          \* correlated through <- inside an expression
+          SelQ(<<I(A), Item(Sub(SelQ(<<I(Col("c"))>>, Table(<<"<-", "u">>, ""), CmpE(">", Col("c"), Bin("+", ColP(<<"<-", "a">>), LN(1))))), "s")>>, T, None),
+          SelQ(<<I(A), Item(Sub(SelQ(<<I(Col("c"))>>, Table(<<"<-", "u">>, ""), CmpE(">", Bin("-", Col("c"), ColP(<<"<-", "a">>)), LN(0)))), "s")>>, T, None),
+          \* EXISTS over a table of the enclosing document whose rows share a key with the outer row
+          SelQ(<<I(A)>>, T, Exists(SelQ(<<Star>>, Table(<<"<-", "u">>, ""), CmpE(">", Col("c"), LN(1))))),
+          SelQ(<<I(A)>>, T, Exists(SelQ(<<Star>>, Table(<<"<-", "u">>, ""), CmpE(">=", Col("c"), A)))),
           \* a WITH clause inside a row-scoped subquery
           SelQ(<<I(A), Item(Sub([NQ(<<I(P)>>, None) EXCEPT !.from = Table(<<"big">>, ""),
                                     !.with = <<[name |-> "big", q |-> NQ(<<I(P)>>, CmpE(">", P, LN(1)))]>>]), "s")>>, T, None),
@@ -78,6 +88,18 @@ Subs == { SelQ(<<I(A), Item(Sub(NQ(<<I(P)>>, None)), "s")>>, T, None),
           SelQ(<<I(A)>>, T, Exists(NQ(<<Star>>, CmpE(">", P, A)))),
           SelQ(<<I(A)>>, T, NotE(Exists(NQ(<<Star>>, CmpE(">", P, A))))),
           SelQ(<<I(A)>>, T, AndE(Exists(NQ(<<Star>>, None)), CmpE(">", A, LN(1)))) }
+
+\* two sibling derived tables, each with a WITH of its own (both sides of a join; both branches of a union)
+WithQ(name, tbl, col) == [SelQ(<<I(Col(col))>>, Table(<<name>>, ""), None) EXCEPT !.with = <<[name |-> name, q |-> SelQ(<<I(Col(col))>>, Table(<<tbl>>, ""), None)]>>]
+SiblingJoin == [BaseQ EXCEPT !.from = [k |-> "join", type |-> "inner", kw |-> "", l |-> Derived(WithQ("c", "t", "a"), "x"), r |-> Derived(WithQ("d", "u", "c"), "y"),
+                                      on |-> CmpE("=", ColP(<<"x", "a">>), ColP(<<"y", "c">>))]]
+SiblingUnion == [k |-> "union", all |-> TRUE, limit |-> -1, offset |-> -1,
+                 l |-> [BaseQ EXCEPT !.from = Derived(WithQ("c", "t", "a"), "x")], r |-> [BaseQ EXCEPT !.from = Derived(WithQ("d", "u", "c"), "x")]]
+\* a CTE read twice: first through SELECT * ... ORDER BY (which must not reorder what the second read sees)
+OrderedThenFirst ==
+    [SelQ(<<I(ColP(<<"x", "a">>))>>, Table(<<"d">>, "x"), InSub(ColP(<<"x", "a">>), [SelQ(<<I(A)>>, Table(<<"<-", "c">>, ""), None) EXCEPT !.limit = 1])) EXCEPT !.with =
+        <<[name |-> "c", q |-> SelQ(<<I(A), I(G)>>, T, None)],
+          [name |-> "d", q |-> [SelQ(<<Star>>, C, None) EXCEPT !.order = <<[key |-> <<"a">>, asc |-> FALSE], [key |-> <<"g">>, asc |-> FALSE]>>]]>>]
 
 Cases ==
        {[fam |-> "cte", q |-> WithC(Inners[i], o)] : i \in DOMAIN Inners, o \in Outers(C, <<>>) \cup {GroupOuter(C)}}
@@ -89,6 +111,7 @@ Cases ==
   \cup {[fam |-> "chain", q |-> ChainAliased(Inners[i])] : i \in {1, 2, 6}}
   \cup {[fam |-> "path", q |-> PathQ(w)] : w \in {None, CmpE(">", A, LN(1)), CmpE(">", A, LN(100))}}
   \cup {[fam |-> "sub", q |-> s] : s \in Subs}
+  \cup {[fam |-> "sibling", q |-> SiblingJoin], [fam |-> "sibling", q |-> SiblingUnion], [fam |-> "twice", q |-> OrderedThenFirst]}
 
 Init == /\ \E d \in Docs : \E c \in Cases : cs = [fam |-> c.fam, q |-> c.q, doc |-> d]
         /\ EngineInit
@@ -103,7 +126,14 @@ Materialise(with, doc) ==
     IF with = <<>> THEN doc
     ELSE LET v == RunQ(Head(with).q, doc)
          IN  IF IsErr(v) THEN Err ELSE Materialise(Tail(with), Put(doc, Head(with).name, v))
+RECURSIVE Staged(_, _)
 Staged(q, doc) ==
+    IF q.k = "union" THEN
+        \* both branches staged, then combined as the union prescribes
+        LET a == Staged(q.l, doc) b == Staged(q.r, doc)
+        IN  IF IsErr(a) \/ IsErr(b) THEN Err
+            ELSE LET c == a.e \o b.e IN ArrV(Window(IF q.all THEN c ELSE Dedup(c), q.offset, q.limit))
+    ELSE
     LET d == Materialise(q.with, doc) IN
     IF IsErr(d) THEN Err
     ELSE IF q.from.k = "derived"
@@ -123,7 +153,7 @@ SubLaw ==
         IN  it.e.k = "sub" =>
               \A i \in DOMAIN res.e : res.e[i].f["s"] = RunQ(it.e.q, Marked(kept[i], cs.doc))
 ExistsLaw ==
-    (Ok /\ cs.fam = "sub" /\ cs.q.where.k = "exists") =>
+    (Ok /\ cs.fam = "sub" /\ cs.q.where.k = "exists" /\ cs.q.where.q.from.p = <<"n">>) =>
         LET w == cs.q.where.q.where
             tbl == cs.doc.f["t"].e
             sat(r) == \E j \in DOMAIN r.f["n"].e :
@@ -135,5 +165,5 @@ NoInternals == Ok => \A i \in DOMAIN res.e : IsObj(res.e[i]) => ~("<-" \in Keys(
 
 Export ==
     Done => PrintT(ToJson([q |-> cs.q, doc |-> cs.doc, fam |-> cs.fam, hist |-> hist, res |-> res,
-                           ties |-> (cs.q.order # <<>> /\ HasStage("distinct") /\ HasTies(Stage("distinct"), cs.q.order))]))
+                           ties |-> (cs.q.k = "select" /\ cs.q.order # <<>> /\ HasStage("distinct") /\ HasTies(Stage("distinct"), cs.q.order))]))
 =============================================================================
